@@ -28,6 +28,12 @@ CHECKS = {
    note="Only live identifiers are passed. Readings taken for under-specified points: export of an already exported node adds a name, unexport removes all names, define_type of a defined type is TypeAlreadyDefined. The invariant hook (cfg wac_verif) is trusted to read the private fields faithfully.",
    technique="property-based testing: stateful model-based testing (op sequences as vec(op) + interpreter, reference model, invariant hook), exhaustive short histories + proptest random long ones",
    design="C06"),
+ "C07": dict(
+   category="exploration",
+   text="Batches of up to 28 resource-free item kinds (a base kind plus its whole single-feature mutation neighbourhood, plus random kinds) are emitted as one component importing each kind; wasmparser's own ComponentEntityType::is_subtype_of on the validated component gives the reference verdict for every ordered pair. wac must agree through SubtypeChecker (fresh memo, two independent decodes, cross-collection, one memo shared over all pairs in scrambled order), be reflexive across decodes and transitive, and through set_instantiation_argument on a graph whose memo persists over two sweeps in opposite orders. The neighbourhoods of 21 fixed bases are enumerated on every run.",
+   note="Only the resource-free clause is decided here; 'accepting all of one provider's exports implies the instantiation validates' is exercised by C01's validation of accepted wirings. Named record/variant/enum/flags types are only used in top-level function and type kinds.",
+   technique="property-based testing: differential against the reference validator's subtype relation over mutation neighbourhoods and random kinds (proptest)",
+   design="C07"),
  "C12": dict(
    category="exploration",
    text="Grammar-derived documents (own AST model, random layout) must parse to the derivation's tree; all single-token deletions/duplications/swaps and a fixed third of an 18-token substitution pool per position, raw insertions (forbidden code points, quotes, comment openers, separators, malformed versions) and ~140 hand-written near-miss forms are decided by a reference tokenizer+recogniser written from LANGUAGE.md; wac must agree on membership, on the tree when both accept, and locate its error inside the source when both reject.",
